@@ -115,6 +115,22 @@ def eval_fact(f, assign):
                 return None
             v |= eval_bx(e, assign) << i
         return v in f[2]
+    if k == "or":
+        anyunk = False
+        for conj in f[1]:
+            r = True
+            for sub in conj:
+                e = eval_fact(sub, assign)
+                if e is False:
+                    r = False
+                    break
+                if e is None:
+                    r = None
+            if r is True:
+                return True
+            if r is None:
+                anyunk = True
+        return None if anyunk else False
     if k == "guard":
         g = f[1]
         op = g.get("op")
@@ -145,7 +161,10 @@ def facts_atoms(facts):
     from .values import fact_atoms
     s = frozenset()
     for f in facts:
-        if f[0] == "guard":
+        if f[0] == "or":
+            for conj in f[1]:
+                s |= facts_atoms(conj)
+        elif f[0] == "guard":
             g = f[1]
             s |= g.get("deps", frozenset())
         else:
